@@ -151,11 +151,20 @@ def r9_5(F, R):
                             w, inner, a["transparent"], [f["ty"] for f in fields]), "%s:%d" % (a["file"], a["line"]))
 
 
+def r9_6(F, R):
+    import json, os
+    from .common import narrowing_rule
+    aud = json.load(open(os.path.join(os.path.dirname(os.path.dirname(os.path.dirname(os.path.abspath(__file__)))), "tables", "narrowing_audited.json")))
+    narrowing_rule(F, R, "R9.6", "the interpreter (texlang, texlang-stdlib)",
+                   lambda fn: fn.crate in ("texlang.lib", "texlang_stdlib.lib") and "serde" not in fn.name and "::_::" not in fn.name and "::_#" not in fn.name, 10, aud)
+
+
 def run(F, R, tier):
     r9_1(F, R)
     r9_2(F, R)
     r9_3(F, R)
     r9_5(F, R)
+    r9_6(F, R)
     if tier == "thorough":
         from .. import witness
         witness.run(R, ["C09"])
